@@ -19,8 +19,22 @@
       wikilinks     [[Label]] -> <a class="wikilink" href="/Label/"> with base_url / end_url / html_class options;
       md_in_html    metamorphic: `<TAG attrs markdown="1|block">\\nD\\n</TAG>` == `<TAG attrs>\\n` + convert(D) + `\\n</TAG>` for D from
                     the core grammar (no raw HTML), also with the other extensions' syntax absent.
+    ADJACENCY.  Inline-level extension constructs (footnote references, wikilinks, attribute lists on inline elements,
+    abbreviation uses, nl2br line breaks) are placed DIRECTLY next to -- and inside -- core constructs that compete for the same
+    characters: shortcut / collapsed / full reference links and reference images whose labels are defined, inline links, images,
+    emphasis, strong, code spans, autolinks, backslash escapes, entities; before and after, glued or with one space (helpers
+    `neighbour`, `adjacent`, `glue`).  Each construct must render as itself.  Two sequences are excluded because CORE syntax
+    gives them another meaning: R1 `]` + at most one whitespace + `[` across a boundary (full reference form; footnote references
+    are exempt: a label starting with a caret is a footnote) and R2 two delimiter runs of the same character touching.  Also
+    generated: the backslash-escaped opener (backslash + `[^1]`, backslash + `[[W]]`, `*x*` + backslash + `{.c}` are text) and near misses (`[ ^1]`, `[ [W]]`,
+    `*x* {.c}` mid-line).  Block-level constructs are placed directly above / below core blocks WITHOUT a blank line where the
+    syntax allows it: below any one-line block (ATX / Setext heading, rule) and below an indented code block; fenced code next to
+    every block kind on both sides; an admonition after any block's last line and before any unindented line; a tight definition
+    list above a heading or rule (`tight`, `tight_above`).
 (ii) NON-INTERFERENCE.  For HTML-free documents (token soups incl. extension tokens, line documents, spliced fixtures without
-    `<`, core-grammar documents) and every extension E whose trigger (harness/gen/triggers.py) is absent from the document:
+    `<`, core-grammar documents, and NEAR-MISS documents built from tokens that almost are a trigger: `!!`, `!! note`, `~~`, two
+    backticks, `[ ^1]`, `* [x]: y`, `[ [w]]`, `{ :`, `:x`, entity-escaped pipes ...) and every extension E whose trigger
+    (harness/gen/triggers.py) is absent from the document:
     convert(base + [E]) == convert(base), where base is empty or a random set of other extensions.
 
 distinct / non-trivial: (i) distinct sources (all contain the extension's construct); (ii) distinct (document, E) pairs whose
@@ -34,6 +48,8 @@ from gen.timeout import time_limit
 
 NEEDS_DRIVER = False
 FINDINGS = []
+_RE_REFDEF = re.compile(r'^\[[^\^\]][^\]]*\]: ', re.M)
+_RE_BRACKETS = re.compile(r'[\])`*_>] ?\[\^|\[\^[^\]]*\] ?[\[!`*_<\\]|\]\][`*_<!\\]|[`*_>)]\[\[')
 
 W = ['alpha', 'beta', 'gamma', 'delta', 'x', 'Zed', 'é', 'a1', 'ok', 'naïve']
 
@@ -83,9 +99,150 @@ def _place(rng, blocks, html, src, out, kinds=(('p', 0.6), ('h', 0.15), ('q', 0.
     else: blocks.append('- ' + src); html.append('<ul>\n<li>%s</li>\n</ul>' % out)
 
 
-def wrap(rng, lines, html, allow=('none', 'quote', 'item', 'between')):
-    """place a block-level construct in a container; -> (source, html)"""
-    how = rng.choice([a for a in ('none', 'none', 'quote', 'item', 'between', 'between') if a in allow])
+# ------------------------------------------------------------------------------------------------ adjacency with core constructs
+# An extension's inline construct E is placed DIRECTLY next to core inline constructs that compete for the same characters
+# (`[` `]` `!` `*` `_` `` ` `` `<` `\`): reference-style links and shortcut references whose labels are defined, inline links,
+# images, emphasis, code spans, autolinks, escapes, entities -- before and after, glued or with one space.  What the syntax
+# rules say about such a sequence is simply "each construct renders as itself", with ONE documented exception that is
+# core syntax and therefore excluded (rule R1):  `]` + at most one whitespace + `[` across a boundary is the full reference
+# form `[text][id]` / `[text] [id]`.  A footnote reference `[^id]` is exempt from R1: "a footnote label must start with a
+# caret", so `[^1] [RFC]` is a footnote reference followed by a shortcut reference (this is what the pattern priorities encode).
+REFS = [('RFC', 'http://example.com/rfc'), ('Spec Doc', '/spec'), ('r1', '/one'), ('x-2', '/two?a=1&b=2')]
+
+
+def _el(tag, attrs, inner=None):
+    a = ''.join(' %s="%s"' % (k, v.replace('&', '&amp;').replace('"', '&quot;')) for k, v in sorted(attrs.items()))
+    return '<%s%s />' % (tag, a) if inner is None else '<%s%s>%s</%s>' % (tag, a, inner, tag)
+
+
+def neighbour(rng, kinds=None, text=None):
+    """a core inline construct -> {'src', 'html', 'defs': [definition lines], 'el': (tag, attrs, inner|None) or None, 'kind'}
+    `text` (source, html) replaces the default word content of links / emphasis (used to put E INSIDE a core construct)"""
+    kinds = kinds or ['shortcut', 'shortcut', 'collapsed', 'fullref', 'fullref', 'link', 'image', 'refimage', 'em*', 'em_', 'strong', 'code', 'auto',
+                      'esc', 'entity', 'word']
+    k = rng.choice(kinds)
+    w = rng.choice(W)
+    ts, th = text if text else (w, w)
+    label, url = rng.choice(REFS)
+    d = {'kind': k, 'defs': [], 'el': None}
+    if text and k in ('shortcut', 'collapsed'): label, url = ts, '/about/' + ts.replace(' ', '_')
+    if k == 'shortcut':
+        d.update(src='[%s]' % label, el=('a', {'href': url}, th if text else label), defs=['[%s]: %s' % (label, url)])
+    elif k == 'collapsed':
+        d.update(src='[%s][]' % label, el=('a', {'href': url}, th if text else label), defs=['[%s]: %s' % (label, url)])
+    elif k == 'fullref': d.update(src='[%s][%s]' % (ts, rng.choice([label, label.upper()])), el=('a', {'href': url}, th), defs=['[%s]: %s' % (label, url)])
+    elif k == 'link':
+        if rng.random() < 0.3: d.update(src='[%s](/u "T t")' % ts, el=('a', {'href': '/u', 'title': 'T t'}, th))
+        else: d.update(src='[%s](/u)' % ts, el=('a', {'href': '/u'}, th))
+    elif k == 'image': d.update(src='![%s](/s)' % w, el=('img', {'alt': w, 'src': '/s'}, None))
+    elif k == 'refimage': d.update(src='![%s][%s]' % (w, label), el=('img', {'alt': w, 'src': url}, None), defs=['[%s]: %s' % (label, url)])
+    elif k == 'em*': d.update(src='*%s*' % ts, el=('em', {}, th))
+    elif k == 'em_': d.update(src='_%s_' % ts, el=('em', {}, th))
+    elif k == 'strong': d.update(src=rng.choice(['**%s**', '__%s__']) % ts, el=('strong', {}, th))
+    elif k == 'code': d.update(src='`%s`' % w, el=('code', {}, w))
+    elif k == 'auto':
+        u = rng.choice(['http://example.com/x', 'https://a.b/?c=d'])
+        d.update(src='<%s>' % u, el=('a', {'href': u}, u))
+    elif k == 'esc':
+        c = rng.choice(['*', '[', ']', '`', '!', '\\', '(', ')'])
+        d.update(src='\\' + c, html=c)
+    elif k == 'entity': d.update(src='&amp;', html='&amp;')
+    else: d.update(src=w, html=w)
+    if d['el']: d['html'] = _el(*d['el'])
+    return d
+
+
+def _isw(c):
+    return bool(c) and (c.isalnum() or c == '_')
+
+
+def _r1(left, gap, right):
+    """rule R1: `]` + at most one whitespace + `[` is the core full-reference syntax"""
+    return left.endswith(']') and right.startswith('[') and len(gap) <= 1
+
+
+def _clash(left, gap, right, bracket_ok=False):
+    """sequences whose meaning the core syntax itself changes: R1, and R2 = two delimiter runs of the same character touching
+    (`` `a``b` ``, `*a**b*`, `_a__b_`: the runs merge into one longer run)"""
+    if not left or not right: return False
+    if not bracket_ok and _r1(left, gap, right): return True
+    if not gap and left[-1] == right[0] and left[-1] in '`*_': return True
+    if not gap and ((right[0] == '_' and _isw(left[-1])) or (left[-1] == '_' and _isw(right[0]))): return True    # `_` needs a word boundary
+    return False
+
+
+def glue(rng, a, b, bracket_ok=False, choices=('', ' ', ' ')):
+    """a gap ('' or ' ') between two source fragments that keeps both constructs what they are"""
+    g = rng.choice(choices)
+    if _clash(a, g, b, bracket_ok): g = ' ' if not _clash(a, ' ', b, bracket_ok) else ', '
+    return g
+
+
+def adjacent(rng, e_src, e_html, bracket_ok=False, p=0.6, kinds=None):
+    """E between up to two core neighbours:  [N1 gap] E [gap N2]   gap in {'', ' '}  -> (src, html, defs)"""
+    src, html, defs = e_src, e_html, []
+    for side in ('before', 'after'):
+        if rng.random() >= p: continue
+        for _ in range(6):
+            nb = neighbour(rng, kinds)
+            gap = rng.choice(['', '', ' '])
+            a, b = (nb['src'], src) if side == 'before' else (src, nb['src'])
+            if _clash(a, gap, b, bracket_ok): continue
+            # a plain word glued to E would just make a longer word / label
+            if nb['kind'] == 'word' and not gap: gap = ' '
+            if side == 'before': src, html = nb['src'] + gap + src, nb['html'] + gap + html
+            else: src, html = src + gap + nb['src'], html + gap + nb['html']
+            defs += nb['defs']
+            break
+    return src, html, defs
+
+
+def _with_defs(blocks, defs, rng):
+    """append the reference definitions the neighbours need (each label once), as their own block"""
+    seen = []
+    for d in defs:
+        if d not in seen: seen.append(d)
+    if seen:
+        if rng.random() < 0.3 and len(blocks) > 1: blocks.insert(rng.randint(1, len(blocks)), '\n'.join(seen))
+        else: blocks.append('\n'.join(seen))
+    return blocks
+
+
+# One-line core blocks end at their line end: whatever follows on the next line is a new block even without a blank line.
+def tight_above(rng, kinds=('atx', 'setext', 'rule'), dash_ok=True):
+    """a core block that may stand directly ABOVE (or below) a block construct, without a blank line -> (lines, html)
+    (below a text line a rule is spelled without dashes: `text\n---` is a Setext heading)"""
+    k = rng.choice(kinds); w = words(rng)
+    if k == 'atx': return ['## ' + w + rng.choice(['', ' ##'])], '<h2>%s</h2>' % w
+    if k == 'setext':
+        u = rng.choice(['===', '-----', '=', '-'])
+        lv = 1 if u[0] == '=' else 2
+        return [w, u], '<h%d>%s</h%d>' % (lv, w, lv)
+    if k == 'rule': return [rng.choice(['---', '***', '_ _ _'] if dash_ok else ['***', '_ _ _', '* * *'])], '<hr />'
+    if k == 'para': return [w], '<p>%s</p>' % w
+    if k == 'quote': return ['> ' + w], '<blockquote>\n<p>%s</p>\n</blockquote>' % w
+    if k == 'li': return ['- ' + w], '<ul>\n<li>%s</li>\n</ul>' % w
+    if k == 'code': return ['    ' + w], '<pre><code>%s\n</code></pre>' % w
+    raise ValueError(k)
+
+
+def tight(rng, lines, html, above=('atx', 'setext', 'rule'), below=()):
+    """put core blocks directly above / below the construct, no blank line in between"""
+    if above and rng.random() < 0.7:
+        l, h = tight_above(rng, above)
+        lines = l + lines; html = h + '\n' + html
+    if below and rng.random() < 0.7:
+        l, h = tight_above(rng, below, dash_ok=False)
+        lines = lines + l; html = html + '\n' + h
+    return lines, html
+
+
+def wrap(rng, lines, html, allow=('none', 'quote', 'item', 'between'), above=('atx', 'setext', 'rule'), below=()):
+    """place a block-level construct in a container, or directly next to core blocks; -> (source, html)"""
+    how = rng.choice([a for a in ('none', 'none', 'quote', 'item', 'between', 'between') if a in allow] + ['tight', 'tight'])
+    if how == 'tight':
+        lines, html = tight(rng, list(lines), html, above, below)
+        return '\n'.join(lines), html
     if how == 'quote':
         return '\n'.join('> ' + l if l else '>' for l in lines), '<blockquote>\n%s\n</blockquote>' % html
     if how == 'item':
@@ -141,8 +298,7 @@ def gen_tables(rng):
         shown = (cells + [('', '')] * k)[:k]
         html += ['<tr>'] + ['<td%s>%s</td>' % (attr(aligns[i]), shown[i][1]) for i in range(k)] + ['</tr>']
     html += ['</tbody>', '</table>']
-    src, out = wrap(rng, lines, '\n'.join(html))
-    from markdown.extensions.tables import TableExtension
+    src, out = wrap(rng, lines, '\n'.join(html), above=('atx', 'setext', 'rule', 'code'))
     return src, [('tables', {'use_align_attribute': True} if use_attr else {})], out
 
 
@@ -169,15 +325,16 @@ def gen_fenced(rng):
     esc = lambda s: s.replace('&', '&amp;').replace('<', '&lt;').replace('>', '&gt;').replace('"', '&quot;')
     html = '<pre%s><code%s>%s\n</code></pre>' % (pre, cls, esc('\n'.join(body)))
     lines = [fence + info] + body + [fence]
+    # root level only; "recommended that a blank line be placed before and after" -- not required: any core block may stand
+    # directly above / below ("can immediately follow a list item without becoming part of the list")
     r = rng.random()
-    if r < 0.4: return '\n'.join(lines), [('fenced_code', {})], html
-    a, b = words(rng), words(rng)
-    if r < 0.7:     # "recommended that a blank line be placed before and after"
+    if r < 0.3: return '\n'.join(lines), [('fenced_code', {})], html
+    if r < 0.5:
+        a, b = words(rng), words(rng)
         return '%s\n\n%s\n\n%s' % (a, '\n'.join(lines), b), [('fenced_code', {})], '<p>%s</p>\n%s\n<p>%s</p>' % (a, html, b)
-    if r < 0.85:    # directly after a paragraph / before one
-        return '%s\n%s\n%s' % (a, '\n'.join(lines), b), [('fenced_code', {})], '<p>%s</p>\n%s\n<p>%s</p>' % (a, html, b)
-    # "a fenced code block can immediately follow a list item without becoming part of the list"
-    return '* %s\n\n%s' % (a, '\n'.join(lines)), [('fenced_code', {})], '<ul>\n<li>%s</li>\n</ul>\n%s' % (a, html)
+    kinds = ('atx', 'setext', 'rule', 'para', 'quote', 'li', 'code')
+    lines, html = tight(rng, lines, html, kinds, ('atx', 'setext', 'rule', 'para', 'quote', 'li', 'code'))
+    return '\n'.join(lines), [('fenced_code', {})], html
 
 
 def gen_deflist(rng):
@@ -205,7 +362,8 @@ def gen_deflist(rng):
                 else:
                     lines.append(pad + s); html.append('<dd>%s</dd>' % h)
     html.append('</dl>')
-    src, out = wrap(rng, lines, '\n'.join(html), allow=('none', 'quote', 'between'))
+    # directly below a definition only a heading or a rule ends the list (other lines continue the definition lazily)
+    src, out = wrap(rng, lines, '\n'.join(html), allow=('none', 'quote', 'between'), above=('atx', 'setext', 'rule', 'code'), below=('atx', 'rule') if (not loose and lines[-1].lstrip().startswith(':')) else ())
     return src, [('def_list', {})], out
 
 
@@ -213,7 +371,7 @@ def gen_footnotes(rng):
     ids = rng.sample(['1', '2', 'a', 'note', 'x-y', 'é', 'A b'], rng.randint(1, 3))
     order = list(ids); rng.shuffle(order)          # definition order decides the numbering
     num = {i: k + 1 for k, i in enumerate(order)}
-    paras = []; html = []; count = {i: 0 for i in ids}
+    paras = []; html = []; count = {i: 0 for i in ids}; refdefs = []
 
     def sup(i):
         count[i] += 1
@@ -228,8 +386,16 @@ def gen_footnotes(rng):
         src = s; out = s
         for i in take:
             a, b = sup(i); w = words(rng)
-            glue = rng.choice(['', ' '])
-            src += a + glue + w; out += b + glue + w
+            a, b, dd = adjacent(rng, a, b, bracket_ok=True)           # core constructs directly around the reference
+            refdefs.extend(dd)
+            g1 = rng.choice(['', ' ']) if not a.startswith('_') else ' '
+            g2 = rng.choice(['', ' ']) if not a.endswith('_') else ' '
+            src += g1 + a + g2 + w; out += g1 + b + g2 + w
+            if rng.random() < 0.12:            # a backslash-escaped bracket: not a reference, the text shows `[^id]`
+                src += ' \\[^%s]' % i; out += ' [^%s]' % i
+            elif rng.random() < 0.1:           # near misses: "a footnote label must start with a caret"; the label must match exactly
+                nm = rng.choice(['[ ^%s]', '[^ %s]', '^[%s]', '[%s^]', '[^%s ]']) % i
+                src += ' ' + nm + ' ' + rng.choice(W); out += ' ' + nm + ' ' + src.rsplit(' ', 1)[1]
         # (reference ids fnref:, fnref2:, … are handed out in processing order, which is document order only among
         #  blocks of the same depth: a footnote referenced more than once is referenced from top-level blocks only)
         if any(total[i] > 1 for i in take): _place(rng, paras, html, src, out, (('p', 0.8), ('h', 0.2)))
@@ -258,6 +424,7 @@ def gen_footnotes(rng):
             blocks = [b for b in blocks if not b.startswith('[^')] + defs
     else:
         blocks += defs
+    _with_defs(blocks, refdefs, rng)
     out = '\n'.join(html) + '\n<div class="footnote">\n<hr />\n<ol>\n%s\n</ol>\n</div>' % '\n'.join(lis)
     return '\n\n'.join(blocks), [('footnotes', {})], out
 
@@ -288,7 +455,10 @@ def gen_admonition(rng):
         else: body.append('    ## ' + s); html.append('<h2>%s</h2>' % h)
         prevk = kind
     out = '<div class="%s">\n%s%s\n</div>' % (classes, '<p class="admonition-title">%s</p>\n' % title.replace("'", "'") if title is not None else '', '\n'.join(html))
-    src, out = wrap(rng, [head] + body, out, allow=('none', 'item', 'between'))
+    # the `!!!` line may follow any block's last line, and the first unindented line ends the body
+    tail_code = body[-1].startswith('        ')
+    src, out = wrap(rng, [head] + body, out, allow=('none', 'item', 'between'), above=('atx', 'setext', 'rule', 'para', 'quote', 'li'),
+                    below=('atx', 'rule', 'para', 'quote', 'li') if not tail_code else ('atx', 'rule', 'quote', 'li'))
     return src, [('admonition', {})], out
 
 
@@ -322,7 +492,7 @@ def _attr_html(d):
 
 
 def gen_attr_list(rng):
-    blocks = []; html = []
+    blocks = []; html = []; refdefs = []
     for _ in range(rng.choice([1, 2, 3])):
         r = rng.random()
         a, d = _attrs(rng)
@@ -339,17 +509,25 @@ def gen_attr_list(rng):
         elif r < 0.7 and not (blocks and blocks[-1].startswith('> ')):
             blocks.append('> %s\n> %s' % (s, _brace(rng, a))); html.append('<blockquote>\n<p%s>%s</p>\n</blockquote>' % (_attr_html(d), h))
         else:
-            w = words(rng)
-            kind = rng.choice(['em', 'strong', 'link', 'code', 'image'])
-            el_s, el_h = {'em': ('*%s*' % w, '<em%s>%s</em>'), 'strong': ('**%s**' % w, '<strong%s>%s</strong>'),
-                          'link': ('[%s](/u)' % w, '<a%s>%s</a>'), 'code': ('`%s`' % w, '<code%s>%s</code>'), 'image': ('![%s](/s)' % w, '<img%s />')}[kind]
-            dd = {}
-            if kind == 'link': dd['href'] = '/u'
-            if kind == 'image': dd['alt'] = w; dd['src'] = '/s'
-            dd.update(d)          # "key/value pairs will always override the previously defined attribute"
-            eh = el_h % ((_attr_html(dd), w) if kind != 'image' else (_attr_html(dd),))
+            # "immediately after the inline element with no white space": any core inline element, and core constructs directly around
+            nb = neighbour(rng, ['shortcut', 'collapsed', 'fullref', 'link', 'link', 'image', 'refimage', 'em*', 'em_', 'strong', 'code', 'auto'])
+            tag, at, inner = nb['el']
+            dd = dict(at); dd.update(d)          # "key/value pairs will always override the previously defined attribute"
+            e_src = nb['src'] + _brace(rng, a); e_html = _el(tag, dd, inner)
+            if rng.random() < 0.12:            # "Curly braces can be backslash escaped to avoid being identified as an attribute list"
+                br = _brace(rng, a)
+                e_src = nb['src'] + '\\' + br; e_html = nb['html'] + br
+            elif rng.random() < 0.08:          # "immediately after the inline element with no white space": with a space it is text (mid-line)
+                br = _brace(rng, a)
+                e_src = nb['src'] + ' ' + br; e_html = nb['html'] + ' ' + br
+            refdefs.extend(nb['defs'])
+            e_src, e_html, more = adjacent(rng, e_src, e_html, bracket_ok=False)
+            refdefs.extend(more)
             pre, post = words(rng), words(rng)
-            blocks.append('%s %s%s %s' % (pre, el_s, _brace(rng, a), post)); html.append('<p>%s %s %s</p>' % (pre, eh, post))
+            g1 = ' ' if e_src.startswith('_') or rng.random() < 0.7 else ''
+            g2 = ' ' if e_src.endswith('_') or rng.random() < 0.7 else ''
+            blocks.append('%s%s%s%s%s' % (pre, g1, e_src, g2, post)); html.append('<p>%s%s%s%s%s</p>' % (pre, g1, e_html, g2, post))
+    _with_defs(blocks, refdefs, rng)
     return '\n\n'.join(blocks), [('attr_list', {})], '\n'.join(html)
 
 
@@ -359,34 +537,65 @@ def gen_abbr(rng):
     esc = lambda s: s.replace('&', '&amp;').replace('"', '&quot;')
 
     def use(a): return a, '<abbr title="%s">%s</abbr>' % (esc(title[a]), a)
-    blocks = []; html = []
+    blocks = []; html = []; refdefs = []
     for _ in range(rng.choice([1, 2, 3])):
         a = rng.choice(abbrs)[0]
         s, h = use(a)
         pre, post = words(rng), words(rng)
         r = rng.random()
-        if r < 0.35: src = '%s %s %s' % (pre, s, post); out = '%s %s %s' % (pre, h, post)
-        elif r < 0.5: src = '%s *%s* %s' % (pre, s, post); out = '%s <em>%s</em> %s' % (pre, h, post)
-        elif r < 0.6: src = '%s `%s` %s' % (pre, s, post); out = '%s <code>%s</code> %s' % (pre, a, post)          # not in code
-        elif r < 0.7: src = '%s %sq %s' % (pre, s, post); out = '%s %sq %s' % (pre, a, post)                        # inside a longer word: no
-        elif r < 0.8: src = '%s (%s), %s.' % (pre, s, s); out = '%s (%s), %s.' % (pre, h, h)
-        else: src = '%s %s' % (s, post); out = '%s %s' % (h, post)
+        if r < 0.2: src = '%s %s %s' % (pre, s, post); out = '%s %s %s' % (pre, h, post)
+        elif r < 0.3: src = '%s `%s` %s' % (pre, s, post); out = '%s <code>%s</code> %s' % (pre, a, post)          # not in code
+        elif r < 0.4: src = '%s %sq %s' % (pre, s, post); out = '%s %sq %s' % (pre, a, post)                        # inside a longer word: no
+        elif r < 0.5: src = '%s (%s), %s.' % (pre, s, s); out = '%s (%s), %s.' % (pre, h, h)
+        elif r < 0.6: src = '%s %s' % (s, post); out = '%s %s' % (h, post)
+        elif r < 0.8:
+            # the abbreviation as the text of a core construct (emphasis, every link form incl. a shortcut reference `[HTML]`)
+            nb = neighbour(rng, ['shortcut', 'collapsed', 'fullref', 'link', 'em*', 'em_', 'strong'], text=(s, h))
+            refdefs.extend(nb['defs'])
+            src = '%s %s %s' % (pre, nb['src'], post); out = '%s %s %s' % (pre, nb['html'], post)
+        else:
+            # core constructs directly around the abbreviation (a word: a glued letter/digit/underscore would make a longer word)
+            e_src, e_html, more = adjacent(rng, s, h, bracket_ok=True, kinds=['shortcut', 'collapsed', 'fullref', 'link', 'image', 'refimage', 'em*', 'strong',
+                                                                            'code', 'auto', 'esc', 'entity', 'word'])
+            refdefs.extend(more)
+            src = '%s %s %s' % (pre, e_src, post); out = '%s %s %s' % (pre, e_html, post)
         _place(rng, blocks, html, src, out)
     defs = '\n'.join('*[%s]:%s%s' % (a, rng.choice([' ', '  ']), t) for a, t in abbrs)
-    if rng.random() < 0.7: blocks.append(defs)
-    else: blocks.insert(0, defs)
+    r = rng.random()
+    if r < 0.5: blocks.append(defs)
+    elif r < 0.7: blocks.insert(0, defs)
+    else:                                  # directly below a one-line core block
+        l, h = tight_above(rng)
+        blocks.append('\n'.join(l) + '\n' + defs); html.append(h)
+    _with_defs(blocks, refdefs, rng)
     return '\n\n'.join(blocks), [('abbr', {})], '\n'.join(html)
 
 
+NL_KINDS = ['shortcut', 'collapsed', 'fullref', 'link', 'image', 'refimage', 'em*', 'em_', 'strong', 'code', 'auto', 'esc', 'entity']
+
+
 def gen_nl2br(rng):
-    blocks = []; html = []
+    blocks = []; html = []; refdefs = []
     for _ in range(rng.choice([1, 2, 3])):
-        ls = [inline(rng) for _ in range(rng.choice([1, 2, 2, 3, 4]))]
+        ls = []
+        for j in range(rng.choice([1, 2, 2, 3, 4])):
+            a, b = inline(rng)
+            # the line break stands directly between core constructs: a line ends / the next line begins with one
+            if rng.random() < 0.5:
+                nb = neighbour(rng, NL_KINDS); g = glue(rng, a, nb['src'])
+                a, b = a + g + nb['src'], b + g + nb['html']; refdefs.extend(nb['defs'])
+            if j and rng.random() < 0.5:
+                nb = neighbour(rng, NL_KINDS)
+                if _r1(ls[-1][0], '\n', nb['src']): nb = neighbour(rng, ['em*', 'code', 'auto', 'image', 'esc'])       # rule R1 (a newline is one whitespace)
+                g = glue(rng, nb['src'], a)
+                a, b = nb['src'] + g + a, nb['html'] + g + b; refdefs.extend(nb['defs'])
+            ls.append((a, b))
         r = rng.random()
         hard = rng.random() < 0.2          # an explicit hard break is still ONE break
         one = (not hard) and rng.random() < 0.15          # a single trailing space stays in the text, the newline is still a break
         src = ('  \n' if hard else ' \n' if one else '\n').join(l[0] for l in ls); out = (' <br />\n' if one else '<br />\n').join(l[1] for l in ls)
         _place(rng, blocks, html, src, out, (('p', 0.6), ('q', 0.2), ('li', 0.2)))
+    _with_defs(blocks, refdefs, rng)
     return '\n\n'.join(blocks), [('nl2br', {})], '\n'.join(html)
 
 
@@ -415,7 +624,7 @@ def gen_wikilinks(rng):
     if rng.random() < 0.3: cfg['end_url'] = rng.choice(['.html', ''])
     if rng.random() < 0.3: cfg['html_class'] = rng.choice(['myclass', ''])
     base, end, cls = cfg.get('base_url', '/'), cfg.get('end_url', '/'), cfg.get('html_class', 'wikilink')
-    blocks = []; html = []
+    blocks = []; html = []; refdefs = []
     for _ in range(rng.choice([1, 2, 3])):
         label = rng.choice(['WikiLink', 'Wiki Link', 'a-b', 'x_y', 'A1 b2 c3', 'é', '9'])
         href = base + label.replace(' ', '_') + end
@@ -423,11 +632,27 @@ def gen_wikilinks(rng):
         s = '[[%s]]' % label
         pre, post = words(rng), words(rng)
         r = rng.random()
-        if r < 0.5: src = '%s %s %s' % (pre, s, post); out = '%s %s %s' % (pre, h, post)
-        elif r < 0.7: src = '%s *%s* %s' % (pre, s, post); out = '%s <em>%s</em> %s' % (pre, h, post)
-        elif r < 0.85: src = '%s, %s.' % (s, s); out = '%s, %s.' % (h, h)
-        else: src = '%s `%s`' % (pre, s); out = '%s <code>%s</code>' % (pre, s)
+        if r < 0.25: src = '%s %s %s' % (pre, s, post); out = '%s %s %s' % (pre, h, post)
+        elif r < 0.4:
+            nb = neighbour(rng, ['em*', 'em_', 'strong'], text=(s, h))             # inside emphasis
+            src = '%s %s %s' % (pre, nb['src'], post); out = '%s %s %s' % (pre, nb['html'], post)
+        elif r < 0.5: src = '%s, %s.' % (s, s); out = '%s, %s.' % (h, h)
+        elif r < 0.57: src = '%s `%s`' % (pre, s); out = '%s <code>%s</code>' % (pre, s)
+        elif r < 0.62:                         # a backslash-escaped bracket: not a wikilink
+            esc_s = rng.choice(['\\' + s, '[\\' + s[1:], s[:-1] + '\\]'])
+            src = '%s %s %s' % (pre, esc_s, post); out = '%s %s %s' % (pre, s, post)
+        elif r < 0.66:                         # near misses: the brackets are double and touch
+            nm = rng.choice(['[ [%s]]', '[[%s] ]', '[[%s]', '[%s]]']) % label
+            src = '%s %s %s' % (pre, nm, post); out = src
+        else:
+            # core constructs directly around it (rule R1 applies: `[[W]] [RFC]` is the reference link `[text] [id]` with text `[W]`)
+            e_src, e_html, more = adjacent(rng, s, h, bracket_ok=False)
+            refdefs.extend(more)
+            g1 = ' ' if e_src.startswith('_') or rng.random() < 0.7 else ''
+            g2 = ' ' if e_src.endswith('_') or rng.random() < 0.7 else ''
+            src = '%s%s%s%s%s' % (pre, g1, e_src, g2, post); out = '%s%s%s%s%s' % (pre, g1, e_html, g2, post)
         _place(rng, blocks, html, src, out)
+    _with_defs(blocks, refdefs, rng)
     return '\n\n'.join(blocks), [('wikilinks', cfg)], '\n'.join(html)
 
 
@@ -541,17 +766,29 @@ def check_md_in_html(src, exts, D, parts):
 
 
 # ------------------------------------------------------------------------------------------------ (ii) documents
+# near misses of every extension's trigger: a recogniser that became too permissive shows up on these (each token lacks the
+# real trigger of at least the extension it imitates; the TRIGGER predicates still decide per document and extension)
+NEAR_TOKENS = ['!!', '!! ', '!! note', '!!note', '! ! !', '~~', '``', '~ ~ ~', '` ` `', '~~py', '[ ^1]', '[ ^1]: n\n', '^[1]', '[1^]', '* [x]: y\n', '*\\[x]: y\n',
+               '[x]: y\n', '[ [w]]', '[w]]', '[ [w] ]', '{ :', '(: #i )', ':x', ':', '\n:x', ';  x', '&#124;', '&vert;', '[toc]', '[ TOC ]', '\\!\\!\\!',
+               '//Footnotes Go Here//', '-', '\n-x', '- -', '. . .', '. .', "&#39;", '&quot;']
+NEAR_BLOCKS = ['!! note\n    body', '!!note\n    body', '!! note "t"\n    body', '~~\ncode\n~~', '``\ncode\n``', '~~ py\nx = 1\n~~', '`` { .py }\nx\n``',
+               'term\n:def', 'term\n:', 'term\n;   def', 'term\n\n:def', '[ ^1]: note', 'x[ ^1] y[^ 1]', '* [x]: y', '*\\[x]: y', 'x [ [w]] y [w]]',
+               'a &#124; b\n--- &#124; ---\n1 &#124; 2', 'a ! b\n- ! -', 'x (: #i .c )', '# h (#id)', 'p\n(: .c )', '[toc]', '[ TOC ]', '//Footnotes Go Here//',
+               '- a\n- b', '1. a\n1. b', 'a\n\nb', "it&#39;s &quot;q&quot; - . . ."]
 _ALPHA = None
 
 
 def ni_doc(rng):
     global _ALPHA
     if _ALPHA is None:
-        _ALPHA = ([t for t in G.alphabet(html=False, amp=True, ext=True) if '<' not in t], [t for t in G.LINE_OPENERS if '<' not in t])
+        _ALPHA = ([t for t in G.alphabet(html=False, amp=True, ext=True) if '<' not in t] + NEAR_TOKENS, [t for t in G.LINE_OPENERS if '<' not in t] + NEAR_BLOCKS)
     r = rng.random()
-    if r < 0.35: return G.soup(rng, _ALPHA[0], 1, 22), 'soup'
-    if r < 0.55: return G.lines_doc(rng, openers=_ALPHA[1]), 'lines'
-    if r < 0.75: return G.mutated(rng).replace('<', ''), 'mutated'
+    if r < 0.30: return G.soup(rng, _ALPHA[0], 1, 22), 'soup'
+    if r < 0.45: return G.lines_doc(rng, openers=_ALPHA[1]), 'lines'
+    if r < 0.60: return G.mutated(rng).replace('<', ''), 'mutated'
+    if r < 0.80:
+        parts = [rng.choice(NEAR_BLOCKS) if rng.random() < 0.7 else G.soup(rng, NEAR_TOKENS + G.WORDS + [' ', ' ', '\n'], 1, 8) for _ in range(rng.randint(1, 4))]
+        return rng.choice(['\n\n', '\n\n', '\n']).join(parts), 'nearmiss'
     return g.render(g.gen_doc(rng), random.Random(rng.getrandbits(32))), 'grammar'
 
 
@@ -589,6 +826,9 @@ def search(driver, rng, n):
             viol.append(_viol('render', src, exts, 'conversion raised %s: %s' % (type(e).__name__, e), want, {'extension': name})); continue
         bump('render_' + name)
         if len(exts) > 1: bump('render_with_riders')
+        if _RE_REFDEF.search(src): bump('render_with_core_reference_neighbours')
+        if _RE_BRACKETS.search(src): bump('render_with_bracket_adjacency')
+        if '\\[' in src or '\\{' in src or '\\]' in src: bump('render_with_escaped_opener')
         if info.get('attr_order_only'): bump('render_equal_up_to_attribute_order')
         seen.add(('r', src))
         if prob: viol.append(_viol('render', src, exts, prob[0], prob[1], {'extension': name}))
